@@ -465,6 +465,10 @@ def _tuple(it, a, k):
 def _dict(it, a, k):
     if not a and not k:
         return Py.dict(S.EmptySeq, S.EmptySeq)
+    if len(a) == 1 and not k:
+        t = T(it, a[0])
+        if it.branch(Py.is_dict(t)):
+            return t  # a copy: values are immutable terms
     raise Unsupported("dict() with arguments")
 
 
